@@ -160,7 +160,20 @@ func genBody(r *rand.Rand, depth, n int, titles []string) []gStmt {
 		case k < 7:
 			out = append(out, gStmt{kind: "set", name: "$n", expr: genExpr(r, 2, false)})
 		case k < 8:
-			switch r.Intn(4) {
+			switch r.Intn(7) {
+			case 4, 5, 6:
+				// a command assembled from pools: one-letter, keyword-prefixed and multi-byte names; words of every kind in every position
+				names := []string{"p", "x", "go", "q1", "iffy", "setter", "stopwatch", "jumper", "wait_for", "d\u00e9j\u00e0", "Z"}
+				words := []string{"1", "-2.5", "0", "true", "false", "w", "word", "truely", "12ab", "\u00e9t\u00e9", "a.b", "-x", "{$n}", "{$b}", "{\"lit\"}", "{$n}", "x9"}
+				parts := []string{names[r.Intn(len(names))]}
+				for n := r.Intn(5); n > 0; n-- {
+					parts = append(parts, words[r.Intn(len(words))])
+				}
+				sep := " "
+				if r.Intn(6) == 0 {
+					sep = "  "
+				}
+				out = append(out, gStmt{kind: "command", text: strings.Join(parts, sep)})
 			case 0:
 				out = append(out, gStmt{kind: "command", text: fmt.Sprintf("act %d fast {$n}", lineCount)})
 			case 1:
